@@ -16,6 +16,8 @@ RUN_MODULE = "Run.EngineRun"
 VERDICT_FN = "verdict_C13_any"
 CHUNK = 100
 def render_source(sc):
+    if sc.get("probe") == "kept_alive":
+        return "# probe: " + " ".join(kept_alive_probe.__doc__.split()) + "\n"
     if sc.get("probe") == "copy_attach":
         return f"# probe: a machine and its copy.{sc['first']}; a listener attached to the {sc['side']} only; events fired via {sc.get('via')}\n"
     return eng.render_source(sc)
@@ -95,7 +97,79 @@ def attr_probe(sc):
     return {"probe": True, "names": len(names), "bad": bad[:10]}
 
 
+def event_named_like_state(sc, rng):
+    """one declared event is called like a state (`s3`) that is written later in the class body than the states
+    its transitions leave: it is an event like any other"""
+    if sc.get("evstyle") not in ("str", "list") or sc.get("any_group") or sc.get("extend_event") is not None:
+        return sc
+    evs = sorted({e for t in sc["trans"] for e in t["ev"]})
+    rng.shuffle(evs)
+    for e0 in evs:
+        last_src = max(t["s"] for t in sc["trans"] if e0 in t["ev"])
+        ks = [k for k in range(max(2, last_src + 1), min(sc["n"], 5))]
+        if not ks:
+            continue
+        new = 810 + rng.choice(ks)
+
+        def rn(e):
+            return new if e == e0 else e
+        for t in sc["trans"]:
+            t["ev"] = [rn(e) for e in t["ev"]]
+        sc["ops"] = [([op[0], rn(op[1])] + op[2:]) if op[0] == "send" else op for op in sc["ops"]]
+        drop = {(4, e0), (5, e0), (6, e0)}
+        sc["provs"] = [[nm for nm in prov if tuple(nm) not in drop] for prov in sc["provs"]]
+        sc["tbl"] = [row for row in sc["tbl"] if (row[1], row[2]) not in drop]
+        sc["async"] = [x for x in sc.get("async", []) if (x[1], x[2]) not in drop]
+        sc["wrapped_coros"] = [x for x in sc.get("wrapped_coros", []) if (x[1], x[2]) not in drop]
+        for row in sc["tbl"]:
+            for scr in row[3]:
+                scr["a"] = [([a_[0], rn(a_[1])] + a_[2:]) if a_[0] == "send" else a_ for a_ in scr["a"]]
+        break
+    return sc
+
+
+def kept_alive_probe(sc):
+    """the triggers bound onto an object are the machine's entry points: they work as long as the object lives,
+    also when nothing else refers to the machine any more (garbage collection in between)"""
+    import gc
+    from statemachine import State, StateMachine
+    seen = []
+
+    class Flow(StateMachine):
+        new = State(initial=True)
+        paid = State()
+        pay = new.to(paid)
+        refund = paid.to(new)
+
+        def on_pay(self, amount=0):
+            seen.append(("pay", amount))
+            return amount
+
+    class Order:
+        def __init__(self):
+            self.state = None
+    bad = []
+    with warnings.catch_warnings():
+        warnings.simplefilter("ignore")
+        order = Order()
+        Flow(order).bind_events_to(order)        # no other reference to the machine is kept
+        for _ in range(3):
+            gc.collect()
+        try:
+            r = order.pay(amount=7)
+            if r != 7 or order.state != "paid" or seen != [("pay", 7)]:
+                bad.append(f"order.pay(amount=7) -> {r!r}, state {order.state!r}, callbacks {seen}")
+            order.refund()
+            if order.state != "new":
+                bad.append("second bound trigger: state " + repr(order.state))
+        except Exception as e:  # noqa: BLE001
+            bad.append(repr(e))
+    return {"probe": "kept_alive", "bad": bad}
+
+
 def run_impl(sc):
+    if sc.get("probe") == "kept_alive":
+        return kept_alive_probe(sc)
     if sc.get("probe") == "copy_attach":
         from . import c12
         return c12.copy_attach_probe(sc)
@@ -115,6 +189,8 @@ def generate(rng, tier):
     scs = []
     for _ in range(n):
         sc = enggen.gen_scenario(rng, K)
+        if rng.random() < 0.2:
+            event_named_like_state(sc, rng)
         ops = []
         declared = {e for t in sc["trans"] for e in t["ev"]}
         for op in sc["ops"]:
@@ -148,6 +224,7 @@ def generate(rng, tier):
     for k in range(16):
         pr.append({"probe": "copy_attach", "seed": rng.randrange(10 ** 6), "first": ["copy", "deepcopy"][k % 2],
                    "side": ["copy", "original"][(k // 2) % 2], "via": ["send", "attr", "events", "allowed"][(k // 4) % 4]})
+    pr.append({"probe": "kept_alive"})
     scs += pr
     parts.append(("every entry point of a shallow / deep copy drives the copy (a listener attached to one of the two only)", 16))
     parts.append(("attribute probe: for each generated machine, every name in dir(sm) that is not a declared event "
@@ -159,7 +236,7 @@ def generate(rng, tier):
 def nontrivial(sc, obs):
     """Non-trivial: the history uses >= 2 different calling styles, or it is an attribute probe that
     tried >= 100 names."""
-    if sc.get("probe") == "copy_attach":
+    if sc.get("probe") in ("copy_attach", "kept_alive"):
         return False
     if sc.get("probe"):
         return obs.get("names", 0) >= 100
